@@ -115,6 +115,11 @@ pub fn choose(site: u16, n: u32) -> u32 {
     if n <= 1 {
         return 0;
     }
+    // The tape is harness bookkeeping, whoever asks.
+    crate::alloc::harness(|| choose_inner(site, n))
+}
+
+fn choose_inner(site: u16, n: u32) -> u32 {
     let mut t = tape();
     t.draws += 1;
     let v = if let Some(rng) = &mut t.rng {
